@@ -24,6 +24,8 @@ type NodeOpts struct {
 	// own (e.g. LiteFS's Consul leaser pointed at a fake Consul that is backed by
 	// the lease service).
 	Leaser func(name, hostname, advertiseURL string) (litefs.Leaser, error)
+	// RefillCache: the simulated page cache re-reads every range right after its invalidation.
+	RefillCache bool
 }
 
 // CNode is one cluster member. The embedded *drv.Node is replaced on restart.
@@ -79,8 +81,9 @@ func (c *Cluster) Start(i int) error {
 	}
 	n, err := drv.NewNode(drv.Config{
 		Dir: cn.Dir, Candidate: cn.Opts.Candidate, HTTP: true, Client: rc, KernelMount: cn.Opts.KernelMount,
-		Leaser:  leaser,
-		PreOpen: cn.PreOpen,
+		Leaser:      leaser,
+		PreOpen:     cn.PreOpen,
+		RefillCache: cn.Opts.RefillCache,
 		Tune: func(s *litefs.Store) {
 			s.DatabaseFilter = cn.Opts.Filter
 			if cn.Opts.Tune != nil {
